@@ -1347,6 +1347,14 @@ impl<'a> CompilerState<'a> {
                                     );
                                 }
                                 start = p.as_span().start();
+                                if name.starts_with("cctmp") {
+                                    // cctmp is the scratch byte of expressions, cctmp<n> the
+                                    // string literals
+                                    return Err(self.syntax_error(
+                                        &format!("Variable name {} is reserved for the compiler", &name),
+                                        start,
+                                    ));
+                                }
                                 if self.variables.get(&name).is_some() {
                                     return Err(self.syntax_error(
                                         &format!("Variable {} already defined", &name),
@@ -2025,6 +2033,12 @@ impl<'a> CompilerState<'a> {
                 }
                 Rule::id_name => {
                     name = pair.as_str().to_string();
+                    if name.starts_with("cctmp") {
+                        return Err(self.syntax_error(
+                            &format!("Function name {} is reserved for the compiler", &name),
+                            start,
+                        ));
+                    }
                     superstart = Some(start);
                 }
                 Rule::var_sign => {
